@@ -508,6 +508,7 @@ class SimNet:
             "midframe_blocks": 0, "notwritable": 0, "write_fail": 0, "write_void": 0,
             "logger_wait": 0, "fin": 0, "rst": 0, "cut_arrivals": 0, "withheld_arrivals": 0,
             "clock_jumps": 0, "frames_read": 0, "frames_written": 0, "use_after_close": 0,
+            "peer_write_stall": 0, "peer_write_stall_expired": 0,
         }
         self.round_sigs = set()
         self.probe_rounds = set()             # rounds in which the manager refreshed its writable snapshot
